@@ -6,7 +6,7 @@ list of the generated code is the hand model's WITHOUT its last event: `H.revers
 `.fill (clone's cell)`, but the source never assigns `*reversed.gc` (it only writes elements of the cloned
 slice, which leave no event — see the header of Heap/GoHeapPrims.lean).
 -/
-import RosedVerif.Model.GenEq.GemOps
+import RosedVerif.Model.GenEq.GemInv
 set_option linter.unusedVariables false
 set_option linter.unusedSectionVars false
 set_option linter.unusedSimpArgs false
@@ -305,5 +305,124 @@ theorem gemReverse_regenerated (hx : Gen.GemCode.gemReverse_extracted = true) (s
            gem_run_at [H.initialized, hg, get_set_self _ _ _ hc] at hf ⊢
            rw [hf]
            simp [prep, H.reverse, H.initialized, H.ensure, H.clone, Heap.alloc, cellOf, hg, get_set_self _ _ _ hc, Heap.get_set, hc])
+/-- invariant of the fold in `H.reverse`: the ends so far are increasing, positive, and the last one is the running length -/
+def RevOK (acc : List Nat × Nat) : Prop :=
+  acc.1.Pairwise (· < ·) ∧ (∀ j ∈ acc.1, 0 < j ∧ j ≤ acc.2) ∧ (acc.1.getLast? = some acc.2 ∨ (acc.1 = [] ∧ acc.2 = 0))
+
+theorem revOK_step (acc : List Nat × Nat) (x : List Int) (hx : x ≠ []) (ok : RevOK acc) : RevOK (revStep acc x) := by
+  obtain ⟨h1, h2, h3⟩ := ok
+  have hpos : 0 < x.length := List.length_pos_iff.mpr hx
+  refine ⟨?_, ?_, ?_⟩
+  · simp only [revStep, List.pairwise_append, List.pairwise_cons, List.not_mem_nil, false_imp_iff, implies_true,
+      List.Pairwise.nil, and_true, List.mem_singleton, forall_eq]
+    exact ⟨h1, trivial, fun j hj => by have := (h2 j hj).2; omega⟩
+  · intro j hj
+    simp only [revStep, List.mem_append, List.mem_singleton] at hj ⊢
+    rcases hj with hj | rfl
+    · have := h2 j hj; omega
+    · omega
+  · left; simp [revStep]
+
+theorem revOK_foldl : ∀ (L : List (List Int)) (acc : List Nat × Nat), (∀ x ∈ L, x ≠ []) → RevOK acc →
+    RevOK (L.foldl revStep acc) := by
+  intro L
+  induction L with
+  | nil => intro acc _ ok; exact ok
+  | cons x xs ih =>
+    intro acc hne ok
+    exact ih _ (fun y hy => hne y (List.mem_cons_of_mem _ hy)) (revOK_step acc x (hne x List.mem_cons_self) ok)
+
+theorem revF_part (L : List (List Int)) (hne : ∀ x ∈ L, x ≠ []) :
+    Part (L.foldl revStep ([], 0)).1 L.flatten.length := by
+  have ok := revOK_foldl L ([], 0) hne ⟨List.Pairwise.nil, by simp, .inr ⟨rfl, rfl⟩⟩
+  have hs := revStep_foldl_snd L ([], 0)
+  simp only [Nat.zero_add] at hs
+  obtain ⟨h1, h2, h3⟩ := ok
+  rw [hs] at h2 h3
+  refine ⟨h1, h2, fun hn => ?_⟩
+  rcases h3 with h3 | ⟨_, h0⟩
+  · exact h3
+  · exact absurd h0 hn
+
+theorem reverse_events (s : GStr) (h : Heap) : ∃ w x, (H.reverse s h).2.2 = w ++ [x] := by
+  unfold H.reverse; exact ⟨_, _, rfl⟩
+
+/-- the result of `Reverse` satisfies the hypothesis again: its cell holds the ends of the reversed clusters -/
+theorem reverse_gemOK (s : GStr) (h : Heap) (hv : GemOK h s) : GemOK (H.reverse s h).1 (H.reverse s h).2.1 := by
+  have key : ∀ (rs : List Int) (c : Nat) (e : List Nat) (h : Heap), h.get c = some e → Part e rs.length →
+      GemOK (H.reverse ⟨rs, some c⟩ h).1 (H.reverse ⟨rs, some c⟩ h).2.1 := by
+    intro rs c e h hg hp
+    have hen : H.ensure ⟨rs, some c⟩ h = (h, e, []) := by simp [H.ensure, cellOf, hg]
+    have hne := clustersFrom_nonempty hp
+    have hpart := revF_part (clustersFrom rs 0 e).reverse (fun x hx => hne x (List.mem_reverse.mp hx))
+    have hstep : (fun (acc : List Nat × Nat) (x : List Int) => (acc.fst ++ [acc.snd + x.length], acc.snd + x.length)) = revStep := rfl
+    simp only [H.reverse, H.initialized, hen, H.clone, Heap.alloc, cellOf, Option.getD_some, hg, hstep]
+    refine ⟨fun c' hc' => ?_, fun c' e' hc' he' => ?_⟩
+    · cases hc'; simp [Heap.set]
+    · cases hc'
+      rw [set_append_self, get_append_self] at he'
+      cases he'
+      exact hpart
+  rcases s with ⟨rs, _ | c⟩
+  · have := key rs h.cells.length (splitRunes rs) ⟨h.cells ++ [some (splitRunes rs)]⟩ (get_append_self _ _) (part_splitRunes rs)
+    have e1 : H.reverse ⟨rs, none⟩ h = ((H.reverse ⟨rs, some h.cells.length⟩ ⟨h.cells ++ [some (splitRunes rs)]⟩).1,
+        (H.reverse ⟨rs, some h.cells.length⟩ ⟨h.cells ++ [some (splitRunes rs)]⟩).2.1,
+        [.alloc h.cells.length, .fill h.cells.length] ++ (H.reverse ⟨rs, some h.cells.length⟩ ⟨h.cells ++ [some (splitRunes rs)]⟩).2.2) := by
+      simp [H.reverse, H.initialized, H.ensure, H.clone, Heap.alloc, cellOf, get_append_self, set_append_self]
+    rw [e1]; exact this
+  · have hc := hv.1 c rfl
+    cases hg : h.get c with
+    | some e => exact key rs c e h hg (hv.2 c e rfl hg)
+    | none =>
+      have := key rs c (splitRunes rs) (h.set c (some (splitRunes rs))) (get_set_self _ _ _ hc) (part_splitRunes rs)
+      have e1 : H.reverse ⟨rs, some c⟩ h = ((H.reverse ⟨rs, some c⟩ (h.set c (some (splitRunes rs)))).1,
+          (H.reverse ⟨rs, some c⟩ (h.set c (some (splitRunes rs)))).2.1,
+          [.fill c] ++ (H.reverse ⟨rs, some c⟩ (h.set c (some (splitRunes rs)))).2.2) := by
+        simp [H.reverse, H.initialized, H.ensure, H.clone, Heap.alloc, cellOf, hg, get_set_self _ _ _ hc]
+      rw [e1]; exact this
+
+theorem eraseIdx_mid {β : Type} (w r : List β) (x : β) : (w ++ x :: r).eraseIdx w.length = w ++ r := by
+  induction w with
+  | nil => rfl
+  | cons a t ih => simp [List.eraseIdx_cons_succ, ih]
+
+/-- `LastIndexFunc`: heap and result of `H.lastIndexFunc`; the events are the hand model's without the one at the position of
+`H.reverse`'s final `.fill` (see `gemReverse_regenerated`) -/
+theorem gemLastIndexFunc_regenerated (hx : Gen.GemCode.gemLastIndexFunc_extracted = true) (s : GStr) (f : List Int → Bool)
+    (h : Heap) (hv : GemOK h s) :
+    Gen.GemCode.gemLastIndexFunc s f h =
+      ((H.lastIndexFunc f s h).1, .ok (H.lastIndexFunc f s h).2.1,
+        (H.lastIndexFunc f s h).2.2.eraseIdx ((H.reverse s h).2.2.length - 1)) := by
+  first
+    | exact absurd hx (by decide)
+    | (have hrev := gemReverse_regenerated (by decide) s h hv
+       have hok := reverse_gemOK s h hv
+       have hidx := gemIndexFunc_regenerated (by decide) (H.reverse s h).2.1 f (H.reverse s h).1 hok
+       obtain ⟨T1, -⟩ := reverse_spec s h
+       have T2 := tr_indexFunc f (H.reverse s h).2.1 (H.reverse s h).1
+       have hal : CellAlloc (H.indexFunc f (H.reverse s h).2.1 (H.reverse s h).1).1 s := by
+         intro c hc
+         have := hv.1 c hc
+         have := T1.mono
+         have := T2.mono
+         omega
+       have hlen := gemLen_regenerated (by decide) s _ hal
+       obtain ⟨w, x, hw⟩ := reverse_events s h
+       unfold Gen.GemCode.gemLastIndexFunc
+       rw [run_bind_ok hrev]
+       unfold H.lastIndexFunc
+       gem_run [hidx, hlen, hw]
+       split <;> simp [prep, eraseIdx_mid])
+
+theorem gemReverse_inv (hx : Gen.GemCode.gemReverse_extracted = true) {h : Heap} {pool : List GStr} {v : GStr} (hi : Inv h pool)
+    (hv : v ∈ zero :: pool) : Gen.GemCode.gemReverse v h =
+      ((H.reverse v h).1, .ok (H.reverse v h).2.1, (H.reverse v h).2.2.dropLast) :=
+  gemReverse_regenerated hx v h (gemOK_of_cellOK (hi.ok' hv))
+
+theorem gemLastIndexFunc_inv (hx : Gen.GemCode.gemLastIndexFunc_extracted = true) {h : Heap} {pool : List GStr} {v : GStr}
+    (f : List Int → Bool) (hi : Inv h pool) (hv : v ∈ zero :: pool) : Gen.GemCode.gemLastIndexFunc v f h =
+      ((H.lastIndexFunc f v h).1, .ok (H.lastIndexFunc f v h).2.1,
+        (H.lastIndexFunc f v h).2.2.eraseIdx ((H.reverse v h).2.2.length - 1)) :=
+  gemLastIndexFunc_regenerated hx v f h (gemOK_of_cellOK (hi.ok' hv))
 
 end RosedVerif.GenCodeEq
